@@ -3,6 +3,7 @@ package chanx
 import (
 	"context"
 	"fmt"
+	"sync"
 	"time"
 
 	"github.com/gopcua/opcua/ua"
@@ -22,6 +23,9 @@ type c16Params struct {
 	ServerPush bool   `json:"server_push"` // the server side also sends (late) responses around the renewal
 	StartMs    int    `json:"start_ms"`    // >0: the first request is sent at this time and the others IntervalMs apart
 	IntervalMs int    `json:"interval_ms"`
+	Parallel   int    `json:"parallel"` // >1: that many requests are issued concurrently at every slot
+	Delay      bool   `json:"delay_bounded"`
+	During     bool   `json:"during_renewal"` // the requests are issued while an explicit renewal is in flight (its answer takes 200 ms)
 }
 
 type c16Obs struct {
@@ -72,15 +76,48 @@ func c16Body(p c16Params) func() {
 			gap = time.Duration(p.IntervalMs) * time.Millisecond
 		}
 		vrt.BeginWindow()
+		if p.During {
+			for _, c := range vnet.Net().Conns {
+				if c.LocalAddr().String() == "127.0.0.1:4840" {
+					c.SetLatency(200 * time.Millisecond)
+				}
+			}
+			go func() {
+				if err := sc.Renew(bg); err != nil {
+					obs.errs = append(obs.errs, "explicit renewal: "+err.Error())
+				}
+			}()
+			gap = 50 * time.Millisecond
+		}
 		for k := 0; k < p.Requests; k++ {
 			time.Sleep(gap)
-			obs.sent++
-			err := sc.SendRequest(bg, readReq(0), nil, func(ua.Response) error { return nil })
-			if err != nil {
-				obs.errs = append(obs.errs, fmt.Sprintf("request %d at %v: %v", k, time.Duration(vrt.Now()), err))
-			} else {
-				obs.answered++
+			n := p.Parallel
+			if n < 1 {
+				n = 1
 			}
+			var wg sync.WaitGroup
+			var mu sync.Mutex
+			for j := 0; j < n; j++ {
+				obs.sent++
+				wg.Add(1)
+				send := func() {
+					defer wg.Done()
+					err := sc.SendRequest(bg, readReq(0), nil, func(ua.Response) error { return nil })
+					mu.Lock()
+					if err != nil {
+						obs.errs = append(obs.errs, fmt.Sprintf("request %d at %v: %v", k, time.Duration(vrt.Now()), err))
+					} else {
+						obs.answered++
+					}
+					mu.Unlock()
+				}
+				if n == 1 {
+					send()
+				} else {
+					go send()
+				}
+			}
+			wg.Wait()
 		}
 		vrt.EndWindow()
 		obs.done = true
@@ -89,6 +126,9 @@ func c16Body(p c16Params) func() {
 
 func c16Check(p c16Params) func(x *vrt.Exec) (string, string, string) {
 	tag := fmt.Sprintf("c16/lifetime=%dms/push=%v", p.LifetimeMs, p.ServerPush)
+	if p.During {
+		tag += "/requests-during-renewal"
+	}
 	life := int64(p.LifetimeMs) * int64(time.Millisecond)
 	return func(x *vrt.Exec) (string, string, string) {
 		o := c16obs
@@ -122,7 +162,7 @@ func c16Check(p c16Params) func(x *vrt.Exec) (string, string, string) {
 		// token k is created by OPN response k; its renewal request is OPN request k+1
 		for k := 0; k+1 < len(opnReq) && k < len(opnResp); k++ {
 			age := opnReq[k+1] - opnResp[k]
-			if age < life/2 {
+			if age < life/2 && !(p.During && k == 0) { // the scenario's own explicit renewal is not the timer's
 				return out, tag + "/renewed-before-half-of-the-lifetime", fmt.Sprintf("token %d renewed at age %d ms of %d ms; %s", k, age/1e6, life/1e6, summary)
 			}
 			if age >= life {
@@ -192,10 +232,10 @@ func c16Scenarios(thorough bool) []driver.Scenario {
 	var out []driver.Scenario
 	add := func(p c16Params, bound int) {
 		out = append(out, driver.Scenario{
-			Name:   fmt.Sprintf("c16/lifetime_ms=%d/requests=%d/push=%v/start=%d/every=%d", p.LifetimeMs, p.Requests, p.ServerPush, p.StartMs, p.IntervalMs),
+			Name:   fmt.Sprintf("c16/lifetime_ms=%d/requests=%d/push=%v/start=%d/every=%d/parallel=%d/during=%v", p.LifetimeMs, p.Requests, p.ServerPush, p.StartMs, p.IntervalMs, p.Parallel, p.During),
 			Sequential: bound < 0,
-			Params: p, Cfg: vrt.Config{Horizon: int64(100 * time.Hour), SelectDeviations: true, MaxSteps: 12000},
-			Body: c16Body(p), Check: c16Check(p), Bound: max(bound, 0),
+			Params: p, Cfg: vrt.Config{Horizon: int64(100 * time.Hour), SelectDeviations: true, MaxSteps: 12000, DelayBounded: p.Delay},
+			Body: c16Body(p), Check: c16Check(p), Bound: max(bound, 0), MaxExec: 60000,
 		})
 	}
 	// configurations: every lifetime, default schedule, requests every quarter lifetime over 2.25 lifetimes
@@ -211,6 +251,10 @@ func c16Scenarios(thorough bool) []driver.Scenario {
 	}
 	add(c16Params{LifetimeMs: 2000, Requests: 2, StartMs: 1450, IntervalMs: 50}, bound)
 	add(c16Params{LifetimeMs: 2000, Requests: 2, StartMs: 1250, IntervalMs: 250, ServerPush: true}, bound)
+	// several requests queued at the renewal gate at the same time (requests at 1.5 s, when the renewal is due)
+	add(c16Params{LifetimeMs: 2000, Requests: 1, StartMs: 1500, IntervalMs: 100, Parallel: 3, Delay: true}, bound)
+	// ... and while a renewal is in flight (its answer is 200 ms away): all of them wait at the gate and must all be let through
+	add(c16Params{LifetimeMs: 3600000, Requests: 1, Parallel: 3, During: true, Delay: true}, bound)
 	if thorough {
 		add(c16Params{LifetimeMs: 2000, Requests: 3, StartMs: 1450, IntervalMs: 50}, 1)
 	}
